@@ -193,6 +193,27 @@ class AddMonitor(Monitor):
             if spec.self_clash(ctx["new"]):
                 out_of_domain(mon, "self-clash")
                 return None
+        else:
+            # add_prefix(prefix, uri_prefix, prefix_synonyms=None, uri_prefix_synonyms=None, *, case_sensitive=True,
+            # merge=False) is add_record of the record its arguments spell: judged by the same model with the flags the
+            # CALLER gave (the nested add_record only sees what add_prefix passed on - seed C05-Q)
+            a = list(args[1:])
+            kw = dict(kwargs)
+            prefix = a.pop(0) if a else kw.pop("prefix", None)
+            uri_prefix = a.pop(0) if a else kw.pop("uri_prefix", None)
+            psyn = a.pop(0) if a else kw.pop("prefix_synonyms", None)
+            usyn = a.pop(0) if a else kw.pop("uri_prefix_synonyms", None)
+            cs, merge = kw.pop("case_sensitive", True), kw.pop("merge", False)
+            try:
+                psyn_t, usyn_t = tuple(psyn or ()), tuple(usyn or ())
+                plain = (type(prefix) is str and type(uri_prefix) is str and not a and not kw and isinstance(cs, bool) and isinstance(merge, bool)
+                         and all(type(x) is str for x in psyn_t + usyn_t))
+            except Exception:  # noqa: BLE001
+                plain = False
+            if plain:
+                new = spec.Rec(prefix, uri_prefix, psyn_t, usyn_t, None)
+                if not spec.self_clash(new):
+                    ctx.update(new=new, cs=cs, merge=merge)
         return ctx
 
     def post(self, fn, ctx, outcome, args, kwargs):
@@ -216,7 +237,7 @@ class AddMonitor(Monitor):
                     ["C05"], mon, "rejected-call-changed-state",
                     after=[spec.rec_dict(r) for r in after_recs], **w,
                 )
-            if fn == "add_record":
+            if "new" in ctx:
                 m = model_matches(before_recs, ctx["new"], ctx["cs"])
                 if not (len(m) > 1 or (len(m) == 1 and not ctx["merge"])):
                     violation(["C05"], mon, "rejects-addable-record", matches=m, observed=val, **w)
@@ -249,7 +270,10 @@ class AddMonitor(Monitor):
                 if missing or len(owners) != 1:
                     violation(["C05"], mon, "added-strings-do-not-resolve-to-one-record", not_registered=missing,
                               owners=sorted(owners), after=[spec.rec_dict(r) for r in after_recs], **w)
-            return
+                    return
+            if "new" not in ctx:
+                return
+            w.update(new=spec.rec_dict(ctx["new"]), case_sensitive=ctx["cs"], merge=ctx["merge"])
         new, cs, merge = ctx["new"], ctx["cs"], ctx["merge"]
         m = model_matches(before_recs, new, cs)
         w["after"] = [spec.rec_dict(r) for r in after_recs]
